@@ -183,6 +183,78 @@ def multinet(rng):
     return mn
 
 
+def custom_pump_types(rng, degree):
+    """water net with user-defined pump types fitted with the given regression degree (sampling points kept),
+    one through create_pump_from_parameters, one registered from PumpStdType.from_list, plus one from coefficients"""
+    import pandapipes as pp
+    from pandapipes.std_types.std_type_class import PumpStdType
+    from pandapipes.std_types.std_types import create_pump_std_type
+    net = pp.create_empty_network("pump degree %d" % degree, fluid="water")
+    j = pp.create_junctions(net, 4, 4.0, 293.15)
+    pp.create_ext_grid(net, j[0], 4.0, 293.15)
+    pp.create_pipe_from_parameters(net, j[0], j[1], 0.2, 100.0)
+    flow = [0.0, 10.0, 25.0, 40.0, 60.0, 83.0]                       # m3/h
+    pres = [6.1, 6.0, 5.6, 4.9 + 0.01 * rng.randint(0, 9), 3.7, 1.9]  # bar
+    pp.create_pump_from_parameters(net, j[1], j[2], "fit_deg_%d" % degree, pres, flow, degree)
+    create_pump_std_type(net, "list_deg_%d" % degree, PumpStdType.from_list("list_deg_%d" % degree, flow, pres[::-1][::-1], degree))
+    pp.create_pump(net, j[1], j[2], "list_deg_%d" % degree, in_service=False)
+    pp.create_pump_from_parameters(net, j[1], j[2], "coef_only", poly_coefficents=[-0.0004, -0.02, 6.0], in_service=False)
+    pp.create_pipe_from_parameters(net, j[2], j[3], 0.2, 100.0)
+    pp.create_sink(net, j[3], rng.choice([3.0, 5.0, 8.0]))
+    return net
+
+
+def library_fluid_overwritten(rng, lib):
+    """fluid that carries a library NAME but whose property VALUES were replaced by properties of the same class
+    (and one of another class) - a save that relies on the library would restore the wrong numbers"""
+    import numpy as np
+    import pandapipes as pp
+    from pandapipes.properties import fluids as F
+    net = pp.create_empty_network("overwritten " + lib, fluid=lib)
+    fl = net.fluid
+    changed = []
+    for name, prop in list(fl.all_properties.items()):
+        f = rng.choice([0.9, 1.1, 1.25])
+        if isinstance(prop, F.FluidPropertyConstant):
+            fl.add_property(name, F.FluidPropertyConstant(prop.value * f), overwrite=True, warn_on_duplicates=False)
+        elif isinstance(prop, F.FluidPropertyLinear):
+            fl.add_property(name, F.FluidPropertyLinear(prop.slope * f, prop.offset * f), overwrite=True, warn_on_duplicates=False)
+        elif isinstance(prop, F.FluidPropertyInterExtra):
+            x, y = np.array(prop.prop_getter.x), np.array(prop.prop_getter.y)
+            fl.add_property(name, F.FluidPropertyInterExtra(x, y * f), overwrite=True, warn_on_duplicates=False)
+        else:
+            continue
+        changed.append(name)
+    gas = fl.is_gas
+    j = pp.create_junctions(net, 3, 3.0 if gas else 5.0, 295.0)
+    pp.create_ext_grid(net, j[0], 3.0 if gas else 5.0, 295.0)
+    pp.create_pipe_from_parameters(net, j[0], j[1], 0.5, 100.0)
+    pp.create_pipe_from_parameters(net, j[1], j[2], 0.5, 100.0, u_w_per_m2k=1.0, text_k=280.0)
+    pp.create_sink(net, j[2], 0.02 if gas else 1.0)
+    return net
+
+
+def library_fluid_one_property(rng, lib):
+    """library fluid with exactly one property replaced through the public helpers"""
+    import pandapipes as pp
+    from pandapipes.properties import fluids as F
+    net = pp.create_empty_network("one property " + lib, fluid=lib)
+    consts = [k for k, p in net.fluid.all_properties.items() if isinstance(p, F.FluidPropertyConstant)]
+    lins = [k for k, p in net.fluid.all_properties.items() if isinstance(p, F.FluidPropertyLinear)]
+    if lins and rng.random() < 0.5:
+        k = rng.choice(lins)
+        F.create_linear_property(net, k, net.fluid.all_properties[k].slope * 1.5, net.fluid.all_properties[k].offset, overwrite=True, warn_on_duplicates=False)
+    elif consts:
+        k = rng.choice(consts)
+        F.create_constant_property(net, k, net.fluid.all_properties[k].value * 1.5, overwrite=True, warn_on_duplicates=False)
+    gas = net.fluid.is_gas
+    j = pp.create_junctions(net, 2, 3.0, 295.0)
+    pp.create_ext_grid(net, j[0], 3.0, 295.0)
+    pp.create_pipe_from_parameters(net, j[0], j[1], 2.0, 100.0)
+    pp.create_sink(net, j[1], 0.05 if gas else 1.0)
+    return net
+
+
 def failed_run(rng):
     """a net whose last pipeflow did not converge (converged flag False) and a default-created mass storage"""
     import pandapipes as pp
@@ -203,4 +275,11 @@ BUILDERS = [("all_components_water", lambda r: all_components(r, "water")),
             ("all_components_gas", lambda r: all_components(r, "hgas")),
             ("heat_net", heat_net), ("mass_pump_net", mass_pump_net), ("odd_cells", odd_cells),
             ("custom_fluid", custom_fluid), ("custom_gas", custom_gas), ("with_controller", with_controller),
-            ("failed_run", failed_run), ("empty_net", empty_net), ("no_fluid_no_std", no_fluid_no_std), ("multinet", multinet)]
+            ("failed_run", failed_run), ("empty_net", empty_net),
+            ("pump_types_deg1", lambda r: custom_pump_types(r, 1)), ("pump_types_deg3", lambda r: custom_pump_types(r, 3)),
+            ("pump_types_deg4", lambda r: custom_pump_types(r, 4)),
+            ("libfluid_overwritten_water", lambda r: library_fluid_overwritten(r, "water")),
+            ("libfluid_overwritten_lgas", lambda r: library_fluid_overwritten(r, "lgas")),
+            ("libfluid_overwritten_hydrogen", lambda r: library_fluid_overwritten(r, "hydrogen")),
+            ("libfluid_one_property_hgas", lambda r: library_fluid_one_property(r, "hgas")),
+            ("libfluid_one_property_water", lambda r: library_fluid_one_property(r, "water")), ("no_fluid_no_std", no_fluid_no_std), ("multinet", multinet)]
